@@ -4,7 +4,7 @@ cd "$(dirname "$0")/.."
 rs="${*:-$(ls seeded/refactors | grep '^R')}"
 for r in $rs; do
   d=seeded/refactors/$r
-  git -C /repo apply --check $d/patch.diff 2>/dev/null || { echo "$r :: patch no longer applies to /repo HEAD"; continue; }
+  git -C /repo apply --check "$(realpath $d/patch.diff)" 2>/dev/null || { echo "$r :: patch no longer applies to /repo HEAD"; continue; }
   for p in ${CHECKS:-C01 C02 C03 C04 C05 C06 C07 C08 C09 C10 C11 C12 C13 C14 C15 C16 C17 C18 C19 C20}; do
     out=$(tools/with_patch.sh $d/patch.diff -- ./check $p 2>&1); rc=$?
     echo "$r $p rc=$rc :: $(echo "$out" | grep -c '^VIOLATION') violation lines :: $(echo "$out" | tail -1 | cut -c1-150)"
